@@ -147,8 +147,12 @@ CleanSwap(p) ==
       ns     == kept \o rebase
   IN [log  |-> res.log \o newr,
       segs |-> ns,
+      \* since /repo 3ee1c3a: every live entry newer than what compaction saw is carried over
+      \* (Rebase from the start offset of the newest epoch compaction found), whether or not a
+      \* segment was rolled meanwhile; before, only entries at or after the base offset of the
+      \* first rolled segment were
       epochs |-> IF res.hasEc
-                 THEN (IF rebase # <<>> THEN RebaseEp(res.ec, epochs, rebase[1].base) ELSE res.ec)
+                 THEN RebaseEp(res.ec, epochs, LatestStart(res.ec))
                  ELSE ClearEarliest(epochs, ns[1].base)]
 
 Snapshot == [on |-> TRUE, log |-> log, segs |-> segs, hw |-> hw, now |-> now]
@@ -465,14 +469,12 @@ SegsConsistent == \A k \in 1..Len(segs) : segs[k].bytes = Bytes(SegRecs(log, seg
 NoEmptyInnerSegment == \A k \in 1..Len(segs) - 1 : SegRecs(log, segs, k) # <<>>
 CTypeOK == TypeOK /\ now \in Int /\ pend.on \in BOOLEAN
 
-\* NOT an invariant of the code as it is (and not demanded by C08/C09; it matters
-\* for C02): the epoch cache knows the newest leader epoch present in the log.
-\* A message with a new leader epoch appended to the snapshot's active segment
-\* between DoCleanBegin and DoCleanEnd of a compacting clean is in the live cache
-\* but not in the cache compaction built, and Replace drops it (Rebase only looks
-\* at segments rolled meanwhile).  MC_Cleaner_epochloss.cfg makes TLC exhibit the
-\* 6-step behaviour; harness/commitlog/c08/regression_stimuli/
-\* epoch_entry_lost_in_window.json shows it on the real code.
+\* Since /repo 3ee1c3a (found by check X05, see design_notes/X05.md) an invariant of the code (not
+\* demanded by C08/C09; it matters for C02): the epoch cache knows the newest leader epoch present in
+\* the log.  Before, a message with a new leader epoch appended to the snapshot's active segment
+\* between DoCleanBegin and DoCleanEnd of a compacting clean was in the live cache but not in the
+\* cache compaction built, and Replace dropped it.  MC_Cleaner_epochloss.cfg now passes;
+\* harness/commitlog/c08/regression_stimuli/epoch_entry_lost_in_window.json is the old demonstration.
 EpochCacheKnowsLatest ==
   pend.on \/ \A i \in DOMAIN log : log[i].ep <= LatestEpoch(epochs)
 =============================================================================
